@@ -189,6 +189,24 @@ def writer_selections(model, f):
         if cls_e is None:
             out.append((None, None, n))
             continue
+        if isinstance(cls_e, ast.Name) and isinstance(args_e, ast.Name):
+            # pair form: cls, args = (C, A) if <test> else ...
+            pairs = []
+            for st in walk_own(f.node):
+                if isinstance(st, ast.Assign) and len(st.targets) == 1 and \
+                        isinstance(st.targets[0], ast.Tuple) and \
+                        [getattr(x, 'id', None) for x in
+                         st.targets[0].elts] == [cls_e.id, args_e.id]:
+                    def leaves(v):
+                        if isinstance(v, ast.IfExp):
+                            return leaves(v.body) + leaves(v.orelse)
+                        if isinstance(v, ast.Tuple) and len(v.elts) == 2:
+                            return [(v.elts[0], v.elts[1], st)]
+                        return [(None, None, st)]
+                    pairs.extend(leaves(st.value))
+            if pairs:
+                out.extend(pairs)
+                continue
         if isinstance(cls_e, ast.Name):
             cls_asg = assignments_to(f.node, cls_e.id)
             args_asg = assignments_to(f.node, args_e.id) \
